@@ -7,7 +7,7 @@ From Coq Require Import List NArith ZArith Lia.
 From FlacBase Require Import Res.
 From FlacCodec Require Ast Stream Header Wf Enc Enc_proofs Dec.
 From FlacWriters Require Import Meta Params Params_proofs Finalize Writers.
-From FlacReaders Require Readers Spec Ser RNum Seek Props_C06.
+From FlacReaders Require Readers Spec Ser RNum Seek Props_C06 Props_C07.
 From FlacE2E Require Import Bridge E2E SampleE2E Success ReadBridge SeekE2E.
 Import ListNotations.
 Open Scope N_scope.
@@ -47,7 +47,7 @@ Proof.
   destruct (IH Hin) as (x & Hx & Hr). exists x. split; [right; exact Hx|exact Hr].
 Qed.
 
-Theorem written_file_seeks : forall o L md5, (forall l, length (md5 l) = 16%nat) ->
+Lemma written_seekable_file : forall o L md5, (forall l, length (md5 l) = 16%nat) ->
   forall p rate bps wo ch total w chunks iv e rp,
   options_wf wo -> o_seektable_interval wo = Some iv ->
   sample_new p [] wo rate bps ch total = Ok w ->
@@ -61,11 +61,7 @@ Theorem written_file_seeks : forall o L md5, (forall l, length (md5 l) = 16%nat)
     forall pts, first_seektable (f_blocks f) = Some pts ->
     exists table, Forall2 (point_rel blocks) pts table /\
       let F := file_of_blocks_seek blocks ch bps (Some (EP.blocks_samples blocks)) table e rp in
-      RS.valid_file F /\ RS.pcm F = written /\
-      forall ops, Forall RS.sop_ok (snd (FlacReaders.Seek.sample_run F ops)) ->
-        let atr := map (RS.abs_s F) (snd (FlacReaders.Seek.sample_run F ops)) in
-        Forall (RS.cur_ok written) atr /\ RS.chained 0 atr (RS.spos F (fst (FlacReaders.Seek.sample_run F ops))) /\
-        RS.seeks_land written atr /\ RS.failed_seeks_safe written atr.
+      RS.valid_file F /\ RS.pcm F = written.
 Proof.
   intros o L md5 Hmd p rate bps wo ch total w chunks iv e rp Hwf Hiv Hnew Hfit W written HW Hlen Htot.
   destruct (sample_writer_seekpoints_full o L md5 Hmd p rate bps wo ch total w chunks iv Hwf Hiv Hnew Hfit HW Hlen Htot)
@@ -103,6 +99,80 @@ Proof.
   set (F := file_of_blocks_seek blocks (FlacCodec.Ast.si_channels (conv_si (f_si f))) bps (Some (EP.blocks_samples blocks)) table e rp) in *.
   assert (Hpcm : RS.pcm F = written).
   { unfold F. rewrite (blocks_pcm_seek (conv_si (f_si f)) bps blocks _ _ _ e rp Hok). exact Hcat. }
-  split; [exact Hvalid|]. split; [exact Hpcm|].
+  split; [exact Hvalid|exact Hpcm].
+Qed.
+
+Theorem written_file_seeks : forall o L md5, (forall l, length (md5 l) = 16%nat) ->
+  forall p rate bps wo ch total w chunks iv e rp,
+  options_wf wo -> o_seektable_interval wo = Some iv ->
+  sample_new p [] wo rate bps ch total = Ok w ->
+  forallb (FlacCodec.Wf.fits bps) (concat chunks) = true ->
+  let W := N.of_nat (length (concat chunks)) / ch in
+  let written := firstn (N.to_nat ch * (length (concat chunks) / N.to_nat ch)) (concat chunks) in
+  1 <= W -> N.of_nat (length (concat chunks)) < 2 ^ 36 ->
+  match total with Some T => T = ch * W | None => True end ->
+  exists f blocks,
+    sample_run (encB o L rate bps) md5 p w chunks = Ok f /\
+    forall pts, first_seektable (f_blocks f) = Some pts ->
+    exists table, Forall2 (point_rel blocks) pts table /\
+      let F := file_of_blocks_seek blocks ch bps (Some (EP.blocks_samples blocks)) table e rp in
+      RS.valid_file F /\ RS.pcm F = written /\
+      forall ops, Forall RS.sop_ok (snd (FlacReaders.Seek.sample_run F ops)) ->
+        let atr := map (RS.abs_s F) (snd (FlacReaders.Seek.sample_run F ops)) in
+        Forall (RS.cur_ok written) atr /\ RS.chained 0 atr (RS.spos F (fst (FlacReaders.Seek.sample_run F ops))) /\
+        RS.seeks_land written atr /\ RS.failed_seeks_safe written atr.
+Proof.
+  intros o L md5 Hmd p rate bps wo ch total w chunks iv e rp Hwf Hiv Hnew Hfit W written HW Hlen Htot.
+  destruct (written_seekable_file o L md5 Hmd p rate bps wo ch total w chunks iv e rp Hwf Hiv Hnew Hfit HW Hlen Htot) as (f & blocks & Hrun & H).
+  subst written.
+  exists f, blocks. split; [exact Hrun|]. intros pts Hp. destruct (H pts Hp) as (table & Htab & Hvalid & Hpcm).
+  exists table. split; [exact Htab|]. cbv zeta. split; [exact Hvalid|]. split; [exact Hpcm|].
   intros ops Hops. rewrite <- Hpcm. apply FlacReaders.Props_C06.C06_sample_reader; assumption.
+Qed.
+
+(* the byte reader (either byte order of the reader) and the channel reader over the same written, seekable file *)
+Theorem written_file_seeks_bytes_channels : forall o L md5, (forall l, length (md5 l) = 16%nat) ->
+  forall p rate bps wo ch total w chunks iv e rp,
+  options_wf wo -> o_seektable_interval wo = Some iv ->
+  sample_new p [] wo rate bps ch total = Ok w ->
+  forallb (FlacCodec.Wf.fits bps) (concat chunks) = true ->
+  let W := N.of_nat (length (concat chunks)) / ch in
+  let written := firstn (N.to_nat ch * (length (concat chunks) / N.to_nat ch)) (concat chunks) in
+  1 <= W -> N.of_nat (length (concat chunks)) < 2 ^ 36 ->
+  match total with Some T => T = ch * W | None => True end ->
+  exists f blocks,
+    sample_run (encB o L rate bps) md5 p w chunks = Ok f /\
+    forall pts, first_seektable (f_blocks f) = Some pts ->
+    exists table, Forall2 (point_rel blocks) pts table /\
+      let F := file_of_blocks_seek blocks ch bps (Some (EP.blocks_samples blocks)) table e rp in
+      RS.pcm_bytes F = FlacReaders.Ser.ser e (FlacReaders.Ser.bytes_per_sample bps) written /\
+      (forall ops, Forall RS.bop_ok (snd (FlacReaders.Seek.byte_run F ops)) ->
+        let atr := map (RS.abs_b F) (snd (FlacReaders.Seek.byte_run F ops)) in
+        Forall (RS.cur_ok (RS.pcm_bytes F)) atr /\ RS.chained 0 atr (RS.bpos F (fst (FlacReaders.Seek.byte_run F ops))) /\
+        RS.seeks_land (RS.pcm_bytes F) atr /\ RS.failed_seeks_safe (RS.pcm_bytes F) atr) /\
+      (forall ops c, (c < N.to_nat ch)%nat -> Forall RS.cop_ok (snd (FlacReaders.Seek.chan_run F ops)) ->
+        let atr := map (RS.abs_c F c) (snd (FlacReaders.Seek.chan_run F ops)) in
+        Forall (RS.cur_ok (RS.chan_pcm F c)) atr /\ RS.chained 0 atr (RS.cpos (fst (FlacReaders.Seek.chan_run F ops))) /\
+        RS.seeks_land (RS.chan_pcm F c) atr /\ RS.failed_seeks_safe (RS.chan_pcm F c) atr) /\
+      (forall c, (c < N.to_nat ch)%nat -> forall i, (i < length written / N.to_nat ch)%nat ->
+        nth_error (RS.chan_pcm F c) i = nth_error written (i * N.to_nat ch + c)).
+Proof.
+  intros o L md5 Hmd p rate bps wo ch total w chunks iv e rp Hwf Hiv Hnew Hfit W written HW Hlen Htot.
+  destruct (written_seekable_file o L md5 Hmd p rate bps wo ch total w chunks iv e rp Hwf Hiv Hnew Hfit HW Hlen Htot) as (f & blocks & Hrun & H).
+  subst written.
+  exists f, blocks. split; [exact Hrun|]. intros pts Hp. destruct (H pts Hp) as (table & Htab & Hvalid & Hpcm).
+  exists table. split; [exact Htab|]. cbv zeta.
+  set (F := file_of_blocks_seek blocks ch bps (Some (EP.blocks_samples blocks)) table e rp) in *.
+  split; [rewrite FlacReaders.Props_C07.C07_bytes_vs_samples, Hpcm; reflexivity|].
+  split; [intros ops Hops; apply FlacReaders.Props_C06.C06_byte_reader; assumption|].
+  split; [intros ops c Hc Hops; apply FlacReaders.Props_C06.C06_channel_reader; assumption|].
+  intros c Hc i Hi.
+  destruct (FlacReaders.Props_C07.C07_channels_deinterleaved F c Hvalid Hc) as (_ & Hl & Hn).
+  rewrite <- Hpcm in Hi |- *. apply Hn.
+  (* i < total_frames: |pcm| = total_frames * channels *)
+  unfold FlacReaders.RNum.lenN in Hl. cbn [file_of_blocks_seek R.f_channels F] in Hl.
+  assert (Hch : (1 <= N.to_nat ch)%nat) by lia.
+  assert (E : (length (RS.pcm F) / N.to_nat ch = N.to_nat (RS.total_frames F))%nat).
+  { assert (E0 : length (RS.pcm F) = (N.to_nat (RS.total_frames F) * N.to_nat ch)%nat) by lia. rewrite E0. apply Nat.div_mul. lia. }
+  lia.
 Qed.
